@@ -26,7 +26,7 @@ from ref.okp import OKP_SIZES
 LEVEL = "exploration"
 RULE = ("histories = Hypothesis-generated interleavings of N encryptions per configuration (alg x enc x serialization; the same key object, "
         "equal header values in a fresh dict each time) with host calls random.seed(k) and decrypt_json -> encrypt_json steps on the "
-        "returned object; observed per encryption: content IV, CEK (unwrapped with the recipient key by the reference, or the agreed key), "
+        "returned object; general JSON messages carry 1-3 recipients, each observed on its own; observed per encryption: content IV, CEK (unwrapped with the recipient key by the reference, or the agreed key), "
         "epk, A*GCMKW iv, PBES2 p2s/p2c. Invariants over the history: exact sizes (IV = enc iv size, CEK = enc key size, GCMKW iv 96 bit, "
         "p2s >= 8 octets, default p2c >= 1000, epk a valid point on the recipient's curve), pairwise distinct values, every bit position "
         "of IV/CEK/GCMKW iv/p2s takes both values over >= 128 samples; the same history run in 4 fresh processes (each seeding random "
